@@ -2,11 +2,12 @@
 C02: whole-stream refinement — one step, then whole rune streams, then end of input.
 -/
 import VaxisModel.Lemmas.ParserRefineStep
+import VaxisModel.Model.ParserUtf8
 
 namespace VaxisModel.Lemmas.ParserRefineRun
 open VaxisModel.Model.ParserTable VaxisModel.Model.Parser VaxisModel.Model.ParserUtf8
 open VaxisModel.Lemmas.ParserConform VaxisModel.Lemmas.ParserAbs VaxisModel.Lemmas.ParserRefine
-open VaxisModel.Lemmas.Parser VaxisModel.Lemmas.ParserRead VaxisModel.Lemmas.ParserRefineStep
+open VaxisModel.Lemmas.Parser VaxisModel.Lemmas.ParserRefineStep VaxisModel.Lemmas.ParserRefineCheck VaxisModel.Lemmas.ParserRefineConf
 open VaxisModel.Spec.VT500 (S A M)
 
 theorem fl_ground : fl .ground = ⟨false, false, false, true, false, true, false⟩ := by decide
